@@ -247,6 +247,35 @@ Proof.
     + apply coherent_mutated; assumption.
 Qed.
 
+(* the other mutation kinds re-create every optimizer with its own attribute: nothing observable moves *)
+Lemma inv_other_mutation (a : agent T) : Inv a -> Inv (other_mutation a).
+Proof.
+  intros ((W1 & W2 & W3) & C & Co). unfold other_mutation. split; [|split].
+  - repeat split; cbn [a_vals a_hps a_opts]; auto.
+    + apply in_map_iff in H. destruct H as (o0 & <- & Hin).
+      destruct (reinit_opt_names (a_vals a) o0) as [-> ->]. apply W3, Hin.
+    + apply in_map_iff in H. destruct H as (o0 & <- & Hin).
+      destruct (reinit_opt_names (a_vals a) o0) as [_ ->]. apply W3, Hin.
+  - exact C.
+  - intros o' Hin. cbn [a_vals a_opts] in *. apply in_map_iff in Hin. destruct Hin as (o0 & <- & Hin).
+    destruct (W3 o0 Hin) as [_ [v G]].
+    destruct (reinit_opt_names (a_vals a) o0) as [_ N].
+    destruct (reinit_opt_lr _ _ _ G) as (L1 & L2 & _). exists v. rewrite N. auto.
+Qed.
+
+(* ... and under the invariant they change no learning rate at all *)
+Lemma other_mutation_keeps_lrs (a : agent T) j o :
+  Inv a -> nth_error (a_opts a) j = Some o ->
+  exists o', nth_error (a_opts (other_mutation a)) j = Some o' /\
+             o_wlr o' = o_wlr o /\ Forall (fun g => g = o_wlr o) (o_groups o') /\
+             length (o_groups o') = length (o_groups o) /\ a_vals (other_mutation a) = a_vals a.
+Proof.
+  intros (_ & _ & Co) Hj. unfold other_mutation. cbn [a_opts a_vals].
+  rewrite nth_error_map, Hj. cbn. eexists. split; [reflexivity|].
+  destruct (Co o (nth_error_In _ _ Hj)) as (v & G & L1 & L2).
+  destruct (reinit_opt_lr _ _ _ G) as (M1 & M2 & M3). rewrite L1. auto.
+Qed.
+
 (* ---------------- what one mutation does (the property, agent level) ---------------- *)
 (* exactly the sampled hyperparameter moves, to the mutation of the individual's OWN current value;
    the label names it *)
@@ -350,13 +379,16 @@ Qed.
 
 Lemma pop_step_inv (pop : list (agent T)) o : Forall Inv pop -> Forall Inv (pop_step O pop o).
 Proof.
-  intros H. destruct o as [draws|i k u|s d]; cbn.
+  intros H. destruct o as [draws|i k u|s d|i]; cbn.
   - apply mutation_round_inv; exact H.
   - destruct (nth_error pop i) as [a|] eqn:E; [|exact H].
     apply upd_nth_Forall; [exact H|]. apply inv_rl_hp_mutation.
     rewrite Forall_forall in H. apply H. eapply nth_error_In; eauto.
   - destruct (nth_error pop s) as [a|] eqn:E; [|exact H].
     apply upd_nth_Forall; [exact H|]. rewrite Forall_forall in H. apply H. eapply nth_error_In; eauto.
+  - destruct (nth_error pop i) as [a|] eqn:E; [|exact H].
+    apply upd_nth_Forall; [exact H|]. apply inv_other_mutation.
+    rewrite Forall_forall in H. apply H. eapply nth_error_In; eauto.
 Qed.
 
 Lemma pop_run_inv (ops : list (pop_op T)) : forall pop, Forall Inv pop -> Forall Inv (pop_run O pop ops).
@@ -366,10 +398,11 @@ Qed.
 
 Lemma pop_step_length (pop : list (agent T)) o : length (pop_step O pop o) = length pop.
 Proof.
-  destruct o as [draws|i k u|s d]; cbn.
+  destruct o as [draws|i k u|s d|i]; cbn.
   - apply mutation_round_length.
   - destruct (nth_error pop i); auto using upd_nth_length.
   - destruct (nth_error pop s); auto using upd_nth_length.
+  - destruct (nth_error pop i); auto using upd_nth_length.
 Qed.
 
 Lemma pop_run_length (ops : list (pop_op T)) : forall pop, length (pop_run O pop ops) = length pop.
@@ -521,13 +554,17 @@ Qed.
 
 Lemma rinv_pop_step (pop : list (agent Q)) o : Forall RInv pop -> Forall RInv (pop_step QOps pop o).
 Proof.
-  intros H. destruct o as [draws|i k u|s d]; cbn.
+  intros H. destruct o as [draws|i k u|s d|i]; cbn.
   - apply rinv_round; exact H.
   - destruct (nth_error pop i) as [a|] eqn:E; [|exact H].
     apply upd_nth_Forall; [exact H|]. apply rinv_rl_hp_mutation.
     rewrite Forall_forall in H. apply H. eapply nth_error_In; eauto.
   - destruct (nth_error pop s) as [a|] eqn:E; [|exact H].
     apply upd_nth_Forall; [exact H|]. rewrite Forall_forall in H. apply H. eapply nth_error_In; eauto.
+  - destruct (nth_error pop i) as [a|] eqn:E; [|exact H].
+    apply upd_nth_Forall; [exact H|].
+    rewrite Forall_forall in H. destruct (H a (nth_error_In _ _ E)) as (I & R & G).
+    split; [apply inv_other_mutation, I|split; [exact R|exact G]].
 Qed.
 
 (* every configured hyperparameter of every individual stays inside its range over any history *)
